@@ -15,7 +15,7 @@ import copy
 import numpy as np
 from fractions import Fraction as Fr
 
-from pvc.core import ob_eval, guarded, Ob, PROVED, REFUTED
+from pvc.core import ob_eval, guarded, Ob, PROVED, REFUTED, UNDECIDED
 from pvc.stubs import rebind
 from pvc.sym import R, Not, Eq
 
@@ -322,6 +322,39 @@ def sec_selfcheck(rep, seed):
     rep.add(Ob("C12/selfcheck/canary-aliasing-refuted-and-replayed", "canary", PROVED if bad else "error", "ratfun+replay", 0, f"shared partons dict: refuted+replayed={len(bad)}"))
 
 
+def sec_real_runs(rep, tier):
+    """BOUNDED companions on real runs: the operator of a (Z, A) target is the proton operator with
+    the u/d (ubar/dbar) rows mixed, per entry; named targets through the card."""
+    pts = [{"x": 0.1, "Q2": 20.0}, {"x": 0.3, "Q2": 90.0}]
+    thorough = tier == "thorough"
+    targets = {"neutron": (0.0, 1.0), "isoscalar": (1.0, 2.0), "iron": (23.403, 49.618), "{Z:3,A:7}": (3, 7), "{Z:0,A:2}": (0, 2)}
+    if thorough:
+        targets.update({"lead": (82.0, 208.0), "neon": (10.0, 20.0), "{Z:82.0,A:208}": (82.0, 208)})
+    cfgs = [("ZM-VFNS", 4, "NC", "electron", ("F2_total", "F3_total"), 1)]
+    if thorough:
+        cfgs += [("ZM-VFNS", 5, "CC", "neutrino", ("F2_total", "F3_light", "FL_total"), 1), ("FFNS", 3, "CC", "antineutrino", ("F2_charm", "F3_total"), 1), ("FFNS", 4, "NC", "positron", ("F2_total", "g1_total"), 2), ("FONLL-FFNS", 4, "EM", "electron", ("F2_total",), 1)]
+    for scheme, nf_ff, pr, proj, names, pto in cfgs:
+        th = dict(FNS=scheme, NfFF=nf_ff, PTO=pto, PTODIS=pto)
+        try:
+            base, pids = H.real_ops(th, dict(prDIS=pr, ProjectileDIS=proj, TargetDIS="proton"), names, pts)
+        except Exception as e:  # noqa
+            rep.add(Ob(f"C12/bounded/real run/{scheme} NfFF={nf_ff} {pr} pto={pto}/proton", "bounded", UNDECIDED, "native", 0, f"{type(e).__name__}: {e}"))
+            continue
+        idx = {p: i for i, p in enumerate(pids)}
+        for tname, (z, a) in targets.items():
+            tgt = {"Z": z, "A": a} if tname.startswith("{") else tname
+
+            def rowmap(v, z=z, a=a):
+                w = np.array(v, dtype=float).copy()
+                for u, d in ((2, 1), (-2, -1)):
+                    w[idx[u]] = (z * v[idx[u]] + (a - z) * v[idx[d]]) / a
+                    w[idx[d]] = (z * v[idx[d]] + (a - z) * v[idx[u]]) / a
+                return w
+
+            for n in names:
+                H.bounded_ob(rep, f"C12/bounded/real run/{scheme} NfFF={nf_ff} {pr} {proj} pto={pto}/{n}/target {tname} = proton operator with u/d rows mixed (Z={z}, A={a})", lambda n=n, tgt=tgt, rowmap=rowmap: H.ops_deviation(H.real_ops(th, dict(prDIS=pr, ProjectileDIS=proj, TargetDIS=tgt), [n], pts)[0][n], base[n], rowmap))
+
+
 def run(rep, tier, seed, only=None):
     rep.assume(
         "CouplingConstants.get_weight replaced by its contract value w(|pid|,type,mask) (C02); nf_default by the enumerated nf (C06)",
@@ -329,7 +362,7 @@ def run(rep, tier, seed, only=None):
         "the contraction lemma is stated per kernel with uninterpreted parton values f(pid); linearity of apply_pdf (C17) lifts it to operators",
     )
     rep.stub("CouplingConstants -> WStub", "eko nf_default -> enumerated nf")
-    for nm, f in (("apply_isospin", sec_apply_isospin), ("numbertypes", sec_apply_isospin_number_types), ("lattice", lambda r: sec_lattice(r, tier)), ("collect_elems", sec_collect_elems), ("update_target", sec_update_target)):
+    for nm, f in (("apply_isospin", sec_apply_isospin), ("numbertypes", sec_apply_isospin_number_types), ("lattice", lambda r: sec_lattice(r, tier)), ("collect_elems", sec_collect_elems), ("update_target", sec_update_target), ("realruns", lambda r: sec_real_runs(r, tier))):
         if only and only not in nm:
             continue
         rep.add(guarded(f"C12/{nm}", lambda f=f: (f(rep), [])[1]))
